@@ -21,6 +21,7 @@ import (
 //	pubclose   QoS 1 PUBLISH immediately followed by dropping the connection
 //	idle       virtual time advances by IdleMs
 //	raw        Bytes are written as they are
+//	connectclose client C sends CONNECT (fields as for connect) and drops the connection without reading the CONNACK
 //	noack      client C stops acknowledging deliveries (they stay open and are re-sent at every sweep)
 //	pub2hold   client C publishes at QoS 2 with packet identifier PID and keeps the PUBREL back
 //	pub2rel    client C releases the exchange PID it holds (PUBREL): only now is the message forwarded
@@ -45,6 +46,7 @@ type Step struct {
 	Payload   string   `json:"payload,omitempty"`
 	PQoS      byte     `json:"pqos,omitempty"`
 	Retain    bool     `json:"retain,omitempty"`
+	Dup       bool     `json:"dup,omitempty"` // pub: the DUP flag is set (a client resending after a reconnect)
 	IdleMs    int64    `json:"idle_ms,omitempty"`
 	Bytes     []byte   `json:"bytes,omitempty"`
 	PID       uint16   `json:"pid,omitempty"`    // pub2hold / pub2rel: the client-chosen packet identifier
@@ -278,6 +280,39 @@ func (w *World) Apply(st Step) (problem string, inconclusive bool) {
 		s.Alive = true
 		w.touch(s)
 		s.SessionID = n.Local.SessionOf(s.K.Conn)
+	case "connectclose":
+		// the client sends its CONNECT and is gone before it reads the CONNACK (the CONNACK write
+		// fails). The broker has accepted the session by then: its will is due, and no trace of
+		// the session may stay behind.
+		if s.Connected {
+			return "", false
+		}
+		n := w.Cl.Nodes[st.Node%len(w.Cl.Nodes)]
+		if n.Down {
+			return "", false
+		}
+		s.Node, s.MP, s.ClientID, s.KeepAlive, s.Will = n, st.MP, st.ClientID, st.KeepAlive, st.Will
+		s.Connected = true
+		w.connects++
+		s.connectSeq = w.connects
+		o := ConnectOpts{ClientID: st.ClientID, KeepAlive: st.KeepAlive, Username: st.MP}
+		if st.Will != nil {
+			o.WillTopic, o.WillPayload, o.WillQoS, o.WillRetain = st.Will.Topic, st.Will.Payload, st.Will.QoS, st.Will.Retain
+		}
+		for _, o2 := range w.S {
+			if o2 != s && o2.Alive && o2.ClientID == st.ClientID && w.mp(o2) == w.mp(s) {
+				o2.Displaced = true
+			}
+		}
+		s.K.AttachTo(n)
+		s.K.Send(EncConnect(o))
+		s.K.Close()
+		s.Alive = true
+		w.endSession(s, "close")
+		s.Displaced = true // what the vanished client was sent is not judged
+		if !settle() {
+			return
+		}
 	case "sub":
 		if s == nil || !s.Alive || s.Node.Down {
 			return "", false
@@ -350,7 +385,7 @@ func (w *World) Apply(st Step) (problem string, inconclusive bool) {
 		s.nextPID++
 		w.touch(s)
 		w.modelPublish(w.mp(s), st.Topic, st.Payload, st.Retain, s.Node)
-		s.K.Send(EncPublish(st.Topic, []byte(st.Payload), st.PQoS, st.Retain, false, id))
+		s.K.Send(EncPublish(st.Topic, []byte(st.Payload), st.PQoS, st.Retain, st.Dup && st.PQoS > 0, id))
 		if !settle() {
 			return
 		}
@@ -698,6 +733,7 @@ func (w *World) Apply(st Step) (problem string, inconclusive bool) {
 				break
 			}
 		}
+		w.Cl.AntiEntropy()
 		if !settle() {
 			return
 		}
@@ -806,6 +842,26 @@ func (w *World) CheckState() string {
 				// taken over but not yet at its next keep-alive exchange: C12 allows it to linger,
 				// its record is gone already while its subscriptions go when it is torn down
 				lingering[s.SessionID] = true
+			}
+		}
+		// no ghosts: every listed session belongs to a client of the script that is still there
+		// (or to a displaced one that has not been told yet)
+		if !w.everFailed {
+			owned := map[string]bool{}
+			for _, s := range w.S {
+				if s.SessionID != "" && (s.Alive || lingering[s.SessionID]) {
+					owned[s.SessionID] = true
+				}
+			}
+			var ghosts []string
+			for id := range listed {
+				if !owned[id] {
+					ghosts = append(ghosts, id)
+				}
+			}
+			sort.Strings(ghosts)
+			if len(ghosts) > 0 {
+				return fmt.Sprintf("node %s lists session(s) %v that belong to no client that is still connected", n.Name, ghosts)
 			}
 		}
 		subsOf := map[string][]string{}
